@@ -75,7 +75,7 @@ def run(tier):
             calls = [("".join(c["name"]), ["".join(p) for p in c["parts"]]) for c in r["calls"]]
             hists.append(calls)
         nhist += len(hists)
-        for repl in ("REDACTED", "Rr-x"):
+        for repl in ("REDACTED", "Rr-x", "100%", "pct%d %s", "%.0s"):
             # the alphabet is concretised twice: as it is, and with longer / non-ASCII components
             for amap in ({"a": "a", "b": "b"}, {"a": "userName", "b": "ü漢"}):
                 conc = lambda s: "".join(amap.get(ch, ch) for ch in s)
@@ -124,6 +124,14 @@ def run(tier):
                 break
             if (repl, n) in bij.fwd and bij.fwd[(repl, n)] != r_:
                 v.violation("the pseudonym of a name differs between two processes / call orders", {"name": n, "result": r_, "earlier": bij.fwd[(repl, n)]})
+                break
+        # names that are spelled like pseudonyms (a second run over the tool's own output): still hashed, still injective
+        back = sorted(set(res[:3000]))
+        bres = common.run_inproc(b, [{"op": "hashname", "args": {"replacement": repl, "names": back}}])[0]["result"]
+        for n, r_ in zip(back, bres):
+            v.count()
+            if r_ == n or seen.setdefault(r_, n) != n:
+                v.violation("a name spelled like a pseudonym is not given a pseudonym of its own (fixed point / collision)", {"name": n, "result": r_, "other": seen.get(r_)})
                 break
         # a second, separate process, reversed call order, compound names built from the dictionary
         sub = names[::max(1, len(names) // 20000)]
